@@ -756,6 +756,10 @@ class Interp:
                 b = a
             elif isinstance(b, Obj) and isinstance(a, Residual) and a.text == b.name:
                 a = b
+            # builtin type objects (from type(x) on a concrete value, or the names int/str/...)
+            _tn = ("int", "str", "float", "bool", "list", "dict", "tuple", "set", "NoneType", "bytes")
+            if isinstance(a, Residual) and isinstance(b, Residual) and a.text in _tn and b.text in _tn and op in (ast.Is, ast.Eq, ast.IsNot, ast.NotEq):
+                return (a.text == b.text) if op in (ast.Is, ast.Eq) else (a.text != b.text)
             # identity / equality of a symbol with itself
             if isinstance(a, (Residual, Obj)) and isinstance(b, (Residual, Obj)) and a == b and op in (ast.Is, ast.Eq):
                 return True
@@ -916,6 +920,8 @@ class Interp:
                     return fn(*args)
                 except Exception as ex:  # pylint: disable=W0718
                     raise Raised(type(ex).__name__)
+        if recv is None and meth == "type" and len(args) == 1 and not isinstance(args[0], (Residual, Obj)):
+            return Residual(type(args[0]).__name__)
         # builtins on concrete values
         if recv is None and meth in _BUILTINS and meth not in frame:
             if meth == "isinstance":
